@@ -591,3 +591,15 @@ fn shim_contains_str(s: &str, p: &str) -> (r: bool)
 fn shim_strip_prefix_contains(s: &str, a: &str, b: &str) -> (r: bool)
     ensures r == (a@.is_prefix_of(s@) && has_sub(s@.skip(a@.len() as int), b@))
 { s.strip_prefix(a).is_some_and(|rest| rest.contains(b)) }
+
+/// str::trim(): leading and trailing Unicode whitespace removed (uninterpreted)
+pub uninterp spec fn trimmed(t: Seq<char>) -> Seq<char>;
+/// a String value is determined by its characters
+pub axiom fn axiom_string_ext(a: String, b: String) ensures (a@ == b@) == (a == b);
+/// the String with the given characters (unique by axiom_string_ext)
+pub open spec fn str_of(cs: Seq<char>) -> String { choose|s: String| s@ == cs }
+// shim D6.trim_to_string
+#[verifier::external_body]
+fn shim_trim_to_string(s: &str) -> (r: String) ensures r@ == trimmed(s@), r == str_of(trimmed(s@)) { s.trim().to_string() }
+pub assume_specification<T, E, F>[core::result::Result::<T, E>::or::<F>](r: core::result::Result<T, E>, res: core::result::Result<T, F>) -> (o: core::result::Result<T, F>)
+    ensures o == (match r { Ok(v) => Ok::<T, F>(v), Err(_) => res });
